@@ -375,8 +375,19 @@ func init() {
 		if n, ok := a[0].(int64); ok {
 			return math.Pow10(int(n))
 		}
-		fr.w.stub("math.Pow10 of a symbolic exponent: arbitrary float64 (over-approximation)")
-		return fr.w.path.freshFP()
+		fr.w.stub("math.Pow10 of a symbolic exponent: arbitrary float64 per distinct exponent (over-approximation)")
+		p := fr.w.path
+		h1, h2 := liftIntAny(a[0]).hash()
+		key := fmt.Sprintf("pow10/%x.%x", h1, h2)
+		if p.opaque == nil {
+			p.opaque = map[string]*Term{}
+		}
+		if t, ok := p.opaque[key]; ok {
+			return t
+		}
+		t := p.freshFP()
+		p.opaque[key] = t
+		return t
 	})
 	reg("math.Mod", func(fr *frame, a []Value) Value {
 		x, xc := a[0].(float64)
@@ -706,5 +717,43 @@ func init() {
 			out = append(out, s.b...)
 		}
 		return Str{b: out}, true
+	}
+}
+
+// time.Now: an arbitrary non-decreasing clock with one-second resolution
+// (wall = 0, ext = seconds since year 1, no monotonic reading, loc = nil/UTC);
+// the real bodies of Unix, Sub, Since, Before, After run on top of it.
+func init() {
+	reg("time.Now", func(fr *frame, a []Value) Value {
+		w := fr.w
+		p := w.path
+		w.stub("time.Now: arbitrary non-decreasing clock (whole seconds)")
+		lo := big.NewInt(62135596800 + 1000000000) // after 2001
+		hi := big.NewInt(62135596800 + 4000000000) // before 2096
+		t := p.freshIntRange(lo, hi)
+		if p.lastClock != nil {
+			p.assertTerm(tGe(t, p.lastClock))
+		}
+		p.lastClock = t
+		return Struct{int64(0), t, (*Value)(nil)}
+	})
+	reg("time.Sleep", func(fr *frame, a []Value) Value { fr.w.stub("time.Sleep: returns at once"); return nil })
+}
+
+// rare/pkg/logger: log output is not the subject of any property; the
+// message is recorded as a ghost note, Fatal* ends the program like os.Exit.
+func init() {
+	for _, n := range []string{"Println", "Print", "Printf"} {
+		name := n
+		reg("rare/pkg/logger."+name, func(fr *frame, a []Value) Value {
+			fr.w.stub("logger." + name + ": message dropped")
+			return nil
+		})
+	}
+	for _, n := range []string{"Fatalln", "Fatal", "Fatalf"} {
+		name := n
+		reg("rare/pkg/logger."+name, func(fr *frame, a []Value) Value {
+			panic(targetPanic{v: Iface{t: types.Typ[types.String], v: mkStr("logger." + name + " (process exit)")}, where: "logger." + name})
+		})
 	}
 }
